@@ -74,6 +74,12 @@ func (rt *Router) Build(records []Record) error {
 	if len(params) > MaxSize {
 		return errors.New("denco: too many records")
 	}
+	for _, p := range params {
+		// CHECK 0 marks an unused slot of the double-array, so a NUL byte cannot label an edge.
+		if strings.IndexByte(p.Key, 0) >= 0 {
+			return fmt.Errorf("denco: NUL byte in parameterized key %q", strings.TrimSuffix(p.Key, string(TerminationCharacter)))
+		}
+	}
 	if rt.SizeHint < 0 {
 		rt.SizeHint = 0
 		for _, p := range params {
@@ -199,9 +205,10 @@ func (da *doubleArray) lookup(path string, params []Param, idx int) (*node, []Pa
 			indices = append(indices, (uint64(i)<<indexOffset)|(uint64(idx)&indexMask))
 		}
 		c := path[i]
-		if isReserved(c) {
-			// reserved bytes label the placeholder and termination edges of the trie:
-			// in a looked-up path they can only be part of a parameter value.
+		if isReserved(c) || c == 0 {
+			// reserved bytes label the placeholder and termination edges of the trie, and
+			// CHECK 0 marks its unused slots: in a looked-up path these bytes can only be
+			// part of a parameter value.
 			goto BACKTRACKING
 		}
 		if idx = nextIndex(da.bc[idx].Base(), c); idx >= len(da.bc) || da.bc[idx].Check() != c {
